@@ -32,9 +32,12 @@ RULE = ("exhaustive: every sequence of length <= 5 (quick) / 6 (thorough) over 3
         "contextually convertible to bool (suffix _t1.._t4) on every sequence of length <= 4; every algorithm that moves elements "
         "inside its range also on a move-tracking element type (suffix _mv / _mv_full: a move marks its source, no self test) - "
         "sequences of length <= 4 x predicate / comparator ids, every (first,middle,last) / (first,last,dest) / n on lengths <= 6; "
+        "every algorithm that swaps (iter_swap, swap_ranges, array swap, reverse, partition, rotate, stable_partition, sort / gnome / "
+        "bubble / exchange sort, nth_element, partial_sort) also on an element type with its own ADL swap (suffix _sw: table slot whose id "
+        "stays in place, swap calls counted) - every (i,j) / (first,middle,last) on lengths <= 6, sequences of length <= 4 x ids; "
         "plus seeded random longer sequences; non-trivial = distinct case line with a non-empty range")
 TRUSTED_BASE = ["reference leg: libstdc++ 12 <algorithm> on a copy of the same input"]
-ASSUMPTIONS = ["element type int (moves are copies) or the move-tracking type Mv of the harness (ops _mv); predicates/comparators from the "
+ASSUMPTIONS = ["element type int (moves are copies), the move-tracking type Mv (ops _mv) or the slot type with its own swap (ops _sw) of the harness; predicates/comparators from the "
                "shared id family (coq/C06a/Instances.v), result type bool / int / class (ops _t<k>)"]
 
 
@@ -368,6 +371,56 @@ def gen(tier, rng):
         a = sorted(l[:mid], key=cmpkey(cid))
         b = sorted(l[mid:], key=cmpkey(cid))
         out.append(f"inplace_merge_mv {cid} {mid} {L(a + b)}")
+    # ---- fix-miss round 5: element type with its OWN swap found by argument-dependent lookup (suffix _sw / _sw_full): a table
+    #      slot whose id stays in place while the payload travels; every algorithm that is specified by swaps (iter_swap,
+    #      swap_ranges, reverse - with the number of swaps; partition) or that etl builds from iter_swap (rotate,
+    #      stable_partition, sort = gnome_sort = nth_element = partial_sort, bubble_sort, exchange_sort)
+    for n in range(0, 6 + 1):
+        l = list(range(10, 10 + n))
+        for f in range(0, n + 1):
+            for m in range(f, n + 1):
+                for la in range(m, n + 1):
+                    out.append(f"rotate_sw {f} {m} {la} {L(l)}")
+                    out.append(f"rotate_fwd_sw {f} {m} {la} {L(l)}")
+            for la in range(f, n + 1):
+                out.append(f"reverse_ra_sw {f} {la} {L(l)}")
+                out.append(f"reverse_bidi_sw {f} {la} {L(l)}")
+                out.append(f"reverse_rev_sw {f} {la} {L(l)}")
+        for i in range(0, n):
+            for j in range(0, n):
+                out.append(f"iter_swap_sw {i} {j} {L(l)}")
+        if n == 3:
+            out.append(f"swap_array_sw {L(l)} {L(list(range(100, 103)))}")
+            out.append(f"swap_array_sw {L([7, 7, 8])} {L([7, 9, 8])}")
+        for n2 in range(n, n + 2):
+            out.append(f"swap_ranges_sw {L(l)} {L(list(range(100, 100 + n2)))}")
+            out.append(f"swap_ranges_fwd_sw {L(l)} {L(list(range(100, 100 + n2)))}")
+    for l in small:
+        ls = L(l)
+        for pid in range(0, 5):
+            for op in ("partition_sw", "partition_fwd_sw", "partition_sw_full", "stable_partition_sw"):
+                out.append(f"{op} {pid} {ls}")
+        for cid in (0, 2, 3):
+            for s in ("sort", "gnome_sort", "bubble_sort", "exchange_sort"):
+                out.append(f"{s}_sw {cid} {ls}")
+                if cid != 2:
+                    out.append(f"{s}_sw_full {cid} {ls}")
+            out.append(f"partial_sort_sw {cid} {len(l) // 2} {ls}")
+            if l:
+                out.append(f"nth_element_sw {cid} {len(l) // 2} {ls}")
+    for _ in range(100 if quick else 3000):
+        n = rng.randint(5, 12)
+        l = [rng.randint(0, 4) * 16 + rng.randint(0, 15) for _ in range(n)]
+        ls = L(l)
+        f = rng.randint(0, n)
+        m = rng.randint(f, n)
+        la = rng.randint(m, n)
+        out.append(f"rotate_sw {f} {m} {la} {ls}")
+        out.append(f"reverse_ra_sw {f} {la} {ls}")
+        out.append(f"reverse_bidi_sw {f} {la} {ls}")
+        out.append(f"partition_sw_full {rng.randint(0, 4)} {ls}")
+        out.append(f"stable_partition_sw {rng.randint(0, 4)} {ls}")
+        out.append(f"{rng.choice(('sort', 'bubble_sort', 'exchange_sort'))}_sw_full {rng.randint(0, 3)} {ls}")
     return out
 
 
